@@ -19,6 +19,7 @@ import ast
 import re
 from typing import Any, Dict, List, Optional, Sequence, Set, Tuple
 
+from engine.srcmatch import U
 from engine.model import AnalysisError, Module, dotted, mro, walk_no_nested
 from engine.wire import UNKNOWN, Atom, Config, Extractor, expand, value_count
 
@@ -109,10 +110,10 @@ def ctor_params(mod: Module, cls: str) -> Optional[List[str]]:
             continue
         for st in mod.cls(c).body:
             if isinstance(st, ast.AnnAssign) and isinstance(st.target, ast.Name):
-                ann = ast.unparse(st.annotation)
+                ann = U(st.annotation)
                 if 'ClassVar' in ann:
                     continue
-                if st.value is not None and 'init=False' in ast.unparse(st.value):
+                if st.value is not None and 'init=False' in U(st.value):
                     continue
                 out.append(st.target.id.lstrip('_'))
     return out or None
@@ -280,7 +281,7 @@ def link_records(ctx: Any, rule: str, mod: Module, label: str, rrecs: List[List[
                 continue
             n += 1
             ok = bool(fr & fw)
-            ctx.check(rule, ok, mod, ws.expr, f'{label}: slot {i} (`{rs.code}`) is stored by the reader into field(s) {sorted(fr)} (via `{rs.name}`) but the writer packs `{ast.unparse(ws.expr)[:60]}` '
+            ctx.check(rule, ok, mod, ws.expr, f'{label}: slot {i} (`{rs.code}`) is stored by the reader into field(s) {sorted(fr)} (via `{rs.name}`) but the writer packs `{U(ws.expr)[:60]}` '
                       f'(field(s) {sorted(fw)}) into it', func=wname, text=f'{label} slot {i} {rs.name}')
             if ok:
                 for fld in fr & fw:
@@ -288,7 +289,7 @@ def link_records(ctx: Any, rule: str, mod: Module, label: str, rrecs: List[List[
                     wc = wcomp.get(fld)
                     if rc and wc:
                         n += 1
-                        ctx.check(rule, rc == wc, mod, ws.expr, f'{label}: slot {i} is component `{rc}` of {fld} for the reader but the writer packs `{ast.unparse(ws.expr)[:60]}`', func=wname,
+                        ctx.check(rule, rc == wc, mod, ws.expr, f'{label}: slot {i} is component `{rc}` of {fld} for the reader but the writer packs `{U(ws.expr)[:60]}`', func=wname,
                                   text=f'{label} slot {i} {fld}.{rc}')
     return n
 
@@ -324,7 +325,7 @@ def writer_bits(ex: Extractor, e: ast.AST, field: str, acc: Dict[str, Tuple[int,
     if isinstance(e, ast.IfExp):
         t = ex.ev(e.test)
         if t is UNKNOWN:
-            raise AnalysisError(f'line {e.lineno}: conditional packed value `{ast.unparse(e)}` is not decided by the configuration')
+            raise AnalysisError(f'line {e.lineno}: conditional packed value `{U(e)}` is not decided by the configuration')
         return writer_bits(ex, e.body if t else e.orelse, field, acc)
     if isinstance(e, ast.Constant) and e.value == 0:
         return (0, 0)
@@ -333,7 +334,7 @@ def writer_bits(ex: Extractor, e: ast.AST, field: str, acc: Dict[str, Tuple[int,
             raise AnalysisError(f'line {e.lineno}: accessor `{e.attr}` of split field {field} is not a mask/shift property')
         return acc[e.attr]
     if field in {n.attr for n in ast.walk(e) if isinstance(n, ast.Attribute)}:
-        raise AnalysisError(f'line {e.lineno}: packed expression `{ast.unparse(e)}` involves {field} in an unrecognised way')
+        raise AnalysisError(f'line {e.lineno}: packed expression `{U(e)}` involves {field} in an unrecognised way')
     return None
 
 
@@ -343,7 +344,7 @@ def reader_terms(ex: Extractor, body: Sequence[ast.stmt], var: str, slot_of: Dic
 
     def slot_for(call: ast.AST, pos: int) -> int:
         if id(call) not in slot_of:
-            raise AnalysisError(f'line {getattr(call, "lineno", 0)}: read `{ast.unparse(call)[:50]}` is not one of the extracted atoms')
+            raise AnalysisError(f'line {getattr(call, "lineno", 0)}: read `{U(call)[:50]}` is not one of the extracted atoms')
         return slot_of[id(call)][0] + pos
 
     for st in body:
@@ -352,7 +353,7 @@ def reader_terms(ex: Extractor, body: Sequence[ast.stmt], var: str, slot_of: Dic
             touches = any(isinstance(n, ast.Name) and n.id == var and isinstance(n.ctx, ast.Store) for n in ast.walk(st))
             if t is UNKNOWN:
                 if touches:
-                    raise AnalysisError(f'line {st.lineno}: gate `{ast.unparse(st.test)}` on the reconstruction of {var} is not decided')
+                    raise AnalysisError(f'line {st.lineno}: gate `{U(st.test)}` on the reconstruction of {var} is not decided')
                 continue
             terms = reader_terms(ex, st.body if t else st.orelse, var, slot_of, terms)
             continue
@@ -372,11 +373,11 @@ def reader_terms(ex: Extractor, body: Sequence[ast.stmt], var: str, slot_of: Dic
                 if isinstance(val, ast.Subscript) and id(val.value) in slot_of:
                     terms = [(slot_for(val.value, 0), 0)]
                     continue
-                raise AnalysisError(f'line {st.lineno}: assignment `{ast.unparse(st)[:60]}` to {var} is not a recognised reconstruction step')
+                raise AnalysisError(f'line {st.lineno}: assignment `{U(st)[:60]}` to {var} is not a recognised reconstruction step')
             continue
         if isinstance(st, ast.AugAssign) and isinstance(st.target, ast.Name) and st.target.id == var:
             if not isinstance(st.op, ast.BitOr):
-                raise AnalysisError(f'line {st.lineno}: `{ast.unparse(st)[:60]}`: only |= combines slots')
+                raise AnalysisError(f'line {st.lineno}: `{U(st)[:60]}`: only |= combines slots')
             v = st.value
             shift = 0
             if isinstance(v, ast.BinOp) and isinstance(v.op, ast.LShift) and isinstance(v.right, ast.Constant):
@@ -384,7 +385,7 @@ def reader_terms(ex: Extractor, body: Sequence[ast.stmt], var: str, slot_of: Dic
             if isinstance(v, ast.Subscript) and id(v.value) in slot_of:
                 terms.append((slot_for(v.value, 0), shift))
                 continue
-            raise AnalysisError(f'line {st.lineno}: `{ast.unparse(st)[:60]}` is not `|= <read>[0] << k`')
+            raise AnalysisError(f'line {st.lineno}: `{U(st)[:60]}` is not `|= <read>[0] << k`')
         if any(isinstance(n, ast.Name) and n.id == var and isinstance(n.ctx, ast.Store) for n in ast.walk(st)):
             raise AnalysisError(f'line {st.lineno}: statement stores {var} in an unrecognised way')
     return terms
@@ -416,7 +417,7 @@ def split_field_check(ctx: Any, rule: str, mod: Module, label: str, exr: Extract
                 raise AnalysisError(f'{label}: writer expression for slot {slot} is not syntactic')
             wb = writer_bits(exw, wexpr, field, acc)
             if wb is None:
-                problems.append(f'slot {slot} is read into {var} but the writer packs `{ast.unparse(wexpr)[:50]}` there')
+                problems.append(f'slot {slot} is read into {var} but the writer packs `{U(wexpr)[:50]}` there')
                 continue
             mask, rshift = wb
             src = i + rshift
@@ -450,7 +451,7 @@ def bytes_shape(e: ast.AST, defs: Dict[str, ast.AST], depth: int = 0) -> List[Tu
         return bytes_shape(e.left, defs, depth) + bytes_shape(e.right, defs, depth)
     if isinstance(e, ast.Name) and e.id in defs and depth < 3:
         return bytes_shape(defs[e.id], defs, depth + 1)
-    return [('expr', ast.unparse(e))]
+    return [('expr', U(e))]
 
 
 def string_pool_check(ctx: Any, rule: str, mod: Module, fn: ast.AST, fname: str, terminator: bytes) -> int:
@@ -472,11 +473,11 @@ def string_pool_check(ctx: Any, rule: str, mod: Module, fn: ast.AST, fname: str,
             continue
         n += 1
         term_ok = bool(needle) and needle[-1][0] == 'lit' and needle[-1][1].endswith(terminator)
-        ctx.check(rule, term_ok, mod, c, f'`{ast.unparse(c)[:60]}` searches the pool for an unterminated string: a name that is a prefix of an earlier entry is given that entry\'s offset and reads back as the longer name',
+        ctx.check(rule, term_ok, mod, c, f'`{U(c)[:60]}` searches the pool for an unterminated string: a name that is a prefix of an earlier entry is given that entry\'s offset and reads back as the longer name',
                   func=fname, text=f'{pool}: search needle is terminated')
         for a, shape in appended:
             n += 1
             ctx.check(rule, shape == needle or (not term_ok and bool(shape) and shape[-1][0] == 'lit' and shape[-1][1].endswith(terminator)), mod, a,
-                      f'`{ast.unparse(a)[:60]}` appends {shape} but the pool was searched for {needle}: offsets found by the search must point at exactly what a miss would have stored',
+                      f'`{U(a)[:60]}` appends {shape} but the pool was searched for {needle}: offsets found by the search must point at exactly what a miss would have stored',
                       func=fname, text=f'{pool}: appended bytes equal the needle')
     return n
